@@ -799,6 +799,33 @@ def r8(mods):
         check(bool(names & {"ClientConnectionError", "ClientError", "aiohttp.ClientConnectionError", "aiohttp.ClientError"}), "R2",
               "aiohttp/handle_on-covers-the-connection-error-base", loc(apath, c),
               f"handle_on({sorted(names)}) includes ClientConnectionError (or ClientError): a dropped or reset gateway connection is counted and retried directly")
+    # the tornado hook: its client raises HTTPClientError for HTTP-level failures and socket.gaierror when the
+    # gateway's name does not resolve; both are registered as gateway failures
+    ttree3, tpath3 = mods["tornado_hook"]
+    found = None
+    for c in ast.walk(ttree3):
+        if isinstance(c, ast.Call) and isinstance(c.func, ast.Attribute) and c.func.attr == "handle_on" and c.args:
+            names = {src(e).split(".")[-1] for e in (c.args[0].elts if isinstance(c.args[0], (ast.Tuple, ast.List)) else [c.args[0]])}
+            found = (c, names)
+    if found is None:
+        undec("R2", "tornado/handle_on", rel(tpath3), "handle_on call not found")
+    else:
+        c, names = found
+        check({"HTTPClientError", "gaierror"} <= names or "OSError" in names or "Exception" in names, "R2", "tornado/handle_on-covers-client-and-resolution-errors", loc(tpath3, c),
+              f"handle_on({sorted(names)}) includes HTTPClientError and socket.gaierror")
+    # the per-request exclusion header is looked up in lower case: the tornado hook hands the filter a
+    # lower-cased copy of the headers (tornado's HTTPHeaders capitalises names)
+    prep = find_func(ttree3, "_prepare_tornado_request")
+    if prep is None:
+        undec("R6", "tornado/_prepare_tornado_request", rel(tpath3), "function not found")
+    else:
+        ok = False
+        for kw in [k for c in ast.walk(prep) if isinstance(c, ast.Call) for k in c.keywords]:
+            if kw.arg == "original_headers":
+                v = kw.value
+                ok = isinstance(v, ast.DictComp) and "lower()" in src(v.key) or (isinstance(v, ast.Call) and "lower" in src(v))
+        check(ok, "R6", "tornado/original-headers-lower-cased", loc(tpath3, prep),
+              "original_headers is a copy of the headers with lower-cased names (the filter looks the exclusion header up in lower case)")
     # values dropped from the allow list are collected per occurrence (list.remove removes one occurrence)
     ttree2, tpath2 = mods["traffic_filter"]
     cls2 = find_class(ttree2, "TrafficFilter")
